@@ -135,6 +135,21 @@ func (c *VC) shouldInline(fi *FuncInfo) bool {
 }
 
 func (c *VC) evalCall(st *State, call *ast.CallExpr) []*Term {
+	rs := c.evalCall1(st, call)
+	if c.pendErr != nil && c.ghost == 0 && len(c.frames) == 1 {
+		if pend, ok := st.env[c.pendErr]; ok {
+			for i, rt := range c.resultTypes(call) {
+				if i < len(rs) && types.Identical(rt, types.Universe.Lookup("error").Type()) {
+					pend = c.name("pendErr", mkOr(pend, mkNot(mkEq(rs[i], intLit64(0)))))
+				}
+			}
+			st.env[c.pendErr] = pend
+		}
+	}
+	return rs
+}
+
+func (c *VC) evalCall1(st *State, call *ast.CallExpr) []*Term {
 	view := c.cur().view
 	// conversion
 	if tv, ok := view.typeOf(call.Fun); ok && tv.IsType() {
@@ -493,6 +508,27 @@ func (c *VC) builtin(st *State, name string, call *ast.CallExpr) []*Term {
 	return []*Term{c.fresh(name, c.sortOf(t))}
 }
 
+// guardSliceValue: ownership guard (directive guard-slice-stores) for a slice header that is being
+// stored into memory: it must be empty, allocated by this call, or (when old != nil) the previous
+// value extended in place.
+func (c *VC) guardSliceValue(st *State, v *Term, t types.Type, old *Term, pos token.Pos, text string) {
+	if _, isSlice := t.Underlying().(*types.Slice); !isSlice || c.ghost > 0 || c.entry == nil || !pos.IsValid() {
+		return
+	}
+	d := c.fn.Dir
+	if c.fn.Contract != nil {
+		d = c.fn.Contract.Dir
+	}
+	if d == nil || !d.GuardSliceStores {
+		return
+	}
+	alts := []*Term{mkEq(mkField(v, "sl_len"), c.idxLit(0)), mk(">=", sortBool, mkField(v, "sl_base"), c.entry.alloc)}
+	if old != nil {
+		alts = append(alts, mkAnd(mkEq(mkField(v, "sl_base"), mkField(old, "sl_base")), mkEq(mkField(v, "sl_off"), mkField(old, "sl_off")), mkEq(mkField(v, "sl_cap"), mkField(old, "sl_cap"))))
+	}
+	c.addObl("own/slice-store", text+": the stored slice is empty, allocated by this call, or the previous value extended in place", pos, st.pc, mkOr(alts...))
+}
+
 // rowCopy returns a row equal to dst except positions [dpos, dpos+n) which hold src[spos...].
 func (c *VC) rowCopy(st *State, dst *Term, dpos *Term, src *Term, spos *Term, n *Term) *Term {
 	it := types.Typ[types.Int]
@@ -540,7 +576,9 @@ func (c *VC) builtinAppend(st *State, call *ast.CallExpr) *Term {
 	} else {
 		var vals []*Term
 		for _, a := range call.Args[1:] {
-			vals = append(vals, c.coerce(st, c.eval(st, a), c.typeOf(a), elemT))
+			v := c.coerce(st, c.eval(st, a), c.typeOf(a), elemT)
+			vals = append(vals, v)
+			c.guardSliceValue(st, v, elemT, nil, call.Pos(), exprText(c.prog.fset, a))
 		}
 		hn, h = c.sliceHeap(st, elemT)
 		row = c.sel(h, base)
